@@ -12,6 +12,13 @@ statement, add/delete(not the newest)/add histories.
 Oracle: `spec_query` below, a brute-force evaluator written from the property text, applied to the REAL content of
 each store (read back from the database); the store content itself is judged against the history (`RefStore`: added and
 not deleted, as long as no time passes).
+Histories made by SEVERAL THREADS (round 4): `DbRace` runs 2-3 real threads, each issuing calls (insert / update / remove by
+value / remove by id / search / all) on one real DictionaryDataBase under harness/dsched.py - all one-pre-emption
+schedules of ten always-on scenarios (a provider update racing the removal of the previous version, equal objects under
+two ids, concurrent inserts, searches during writes ...), random scenarios in the failing-input search and the thorough
+tier; the outcome (every call's result, the final store) must be the outcome of SOME sequential order of the same calls
+(`RefDb`, written from the interface).  Theorems: Props.C13 section Conc (lean/FlexModel/Ldm/QueryConc.lean), whose
+premise - every method is one lock section - is read from the source (lean/Generated/LdmSections.lean `dbUnits`).
 """
 from __future__ import annotations
 
@@ -28,6 +35,10 @@ TRUSTED = [
     "sorted() (modelled as stable insertion sort using `<` only; equal on keys of one comparable scalar class)",
     "the Lean operator model (`pyEq`, `compare3`, `pyContains`) is compared with native Python ==, <, in on every "
     "generated filter through the correspondence; harness/ldm_common.py serialises Python values for the model",
+    "thread schedules: harness/dsched.py (CPython executes one bytecode atomically; RLock replaced by a scheduler-aware "
+    "equivalent; every method of DictionaryDataBase traced at opcode granularity); the Lean thread model (QueryConc.lean "
+    "over FlexModel/Conc/Sched.lean) treats a `with self._lock` section as one atomic block and is tied to the source by "
+    "the regenerated section list only (an `ast` pass: harness/gen_ldm_subs.py db_units)",
 ]
 ASSUMPTIONS = [
     "filters: one or two statements, joined by and/or when two (a second statement with logical operator None is run "
@@ -45,6 +56,9 @@ ASSUMPTIONS = [
     "types) raises TypeError out of request_data_objects",
     "back-end equality is modulo JSON (TinyDB returns lists where tuples were stored); known finding C13-KF3: filters "
     "whose reference value is or contains a tuple/list select differently on the two back-ends",
+    "'the same history of operations' for calls issued by several threads = some sequential order of the calls that keeps "
+    "each thread's own order (linearisability); judged on the in-memory back-end only (TinyDB is used single-threaded by "
+    "the facility's tests and has no lock of its own); update / remove_by_id use identifiers that have been issued",
 ]
 
 TYPES = {"cam": 2, "vam": 16, "denm": 1}
@@ -687,6 +701,241 @@ def model_lines(ctx, cases, variants):
     return [([out[i] for i in ia], [out[i] for i in ib]) for ia, ib in spans]
 
 
+# ------------------------------------------------------------------------------------ several threads on the in-memory back-end
+
+_DBR = {}
+
+
+def dbrace_env():
+    if not _DBR:
+        import flexstack.facilities.local_dynamic_map.dictionary_database as db_mod
+        codes = [f.__code__ for f in vars(db_mod.DictionaryDataBase).values() if hasattr(f, "__code__")]
+        _DBR.update(mod=db_mod, files=[db_mod.__file__], codes=codes)
+    return _DBR
+
+
+def rec(sid, g):
+    """a stored data container as IF.LDM.3 builds it (the fields the back-end looks at)"""
+    return {"application_id": 2, "timestamp": 1000 + g, "dataObject": {"header": {"stationId": sid}, "cam": {"generationDeltaTime": g}}}
+
+
+def rec_key(d):
+    return (d["dataObject"]["header"]["stationId"], d["dataObject"]["cam"]["generationDeltaTime"])
+
+
+class RefDb:
+    """the in-memory store as a history of calls determines it (written from the interface: ids are issued in insertion
+    order and never reused, update stores under the id, remove deletes the first stored object equal to the argument,
+    remove_by_id deletes the id, search returns the stored objects of the station in store order)"""
+
+    def __init__(self, rows):
+        self.rows = [(i, r) for i, r in enumerate(rows)]
+        self.next = len(rows)
+
+    def call(self, c):
+        n = c[0]
+        if n == "insert":
+            self.rows.append((self.next, tuple(c[1])))
+            self.next += 1
+            return self.next - 1
+        if n == "update":
+            for j, (k, _) in enumerate(self.rows):
+                if k == c[1]:
+                    self.rows[j] = (k, tuple(c[2]))
+                    break
+            else:
+                self.rows.append((c[1], tuple(c[2])))
+            return True
+        if n == "remove":
+            for j, (k, v) in enumerate(self.rows):
+                if v == tuple(c[1]):
+                    del self.rows[j]
+                    return True
+            return False
+        if n == "remove_by_id":
+            hit = any(k == c[1] for k, _ in self.rows)
+            self.rows = [(k, v) for k, v in self.rows if k != c[1]]
+            return hit
+        if n == "search":
+            return [v for _, v in self.rows if v[0] == c[1]]
+        if n == "all":
+            return [v for _, v in self.rows]
+        raise Infra(f"dbrace call {n}")
+
+
+def interleavings(threads):
+    """all merges of the threads' call lists that keep every thread's own order: [(thread, index), ...]"""
+    out = []
+
+    def go(pos, acc):
+        if all(p == len(t) for p, t in zip(pos, threads)):
+            out.append(list(acc))
+            return
+        for u, t in enumerate(threads):
+            if pos[u] < len(t):
+                pos[u] += 1
+                acc.append((u, pos[u] - 1))
+                go(pos, acc)
+                acc.pop()
+                pos[u] -= 1
+    go([0] * len(threads), [])
+    return out
+
+
+def serial_outcomes(sc):
+    outs = []
+    for order in interleavings(sc["threads"]):
+        ref = RefDb([tuple(r) for r in sc["rows"]])
+        res = {}
+        for u, i in order:
+            res[(u, i)] = ref.call(sc["threads"][u][i])
+        outs.append((sorted(res.items()), list(ref.rows), order))
+    return outs
+
+
+class DbRace:
+    """2-3 REAL threads, each issuing its calls on ONE real DictionaryDataBase, under harness/dsched.py (its RLock replaced
+    by the scheduler's, every method of the class traced at opcode granularity).  Outcome = every call's result and the
+    final store (ids and objects in store order)."""
+
+    def __init__(self, sc, policy):
+        import dsched
+        import realstack as rs
+        from flexstack.facilities.local_dynamic_map import ldm_classes as K
+        env = dbrace_env()
+        self.sc = sc
+        with dsched.patched([env["mod"]]):
+            db = env["mod"].DictionaryDataBase()
+            for r in sc["rows"]:
+                db.insert(rec(*r))
+            sched = dsched.DSched(policy, line_files=env["files"], opcode_codes=env["codes"], max_steps=40000)
+            self.s = sched
+            res = {}
+
+            def do(c):
+                n = c[0]
+                if n == "insert":
+                    return db.insert(rec(*c[1]))
+                if n == "update":
+                    return db.update(rec(*c[2]), c[1])
+                if n == "remove":
+                    return db.remove(rec(*c[1]))
+                if n == "remove_by_id":
+                    return db.remove_by_id(c[1])
+                if n == "search":
+                    flt = K.Filter(K.FilterStatement("header.stationId", K.ComparisonOperators.EQUAL, c[1]))
+                    return [rec_key(d) for d in db.search(K.RequestDataObjectsReq(2, (2,), None, None, flt))]
+                if n == "all":
+                    return [rec_key(d) for d in db.all()]
+                raise Infra(f"dbrace call {n}")
+
+            def body(u):
+                def run_thread():
+                    for i, c in enumerate(sc["threads"][u]):
+                        res[(u, i)] = do(c)
+                return run_thread
+            for u in range(len(sc["threads"])):
+                sched.spawn(body(u), name=f"t{u}")
+            with rs.quiet():
+                sched.run(timeout=30.0)
+            self.results = sorted(res.items())
+            self.final = [(k, rec_key(v)) for k, v in db.database.items()]
+        self.steps = sched.steps
+        self.choices = [c[0] for c in sched.steps]
+
+    def judge(self):
+        s = self.s
+        if s.abort_reason == "deadlock":
+            return [f"deadlock: {s.deadlock}"]
+        if s.abort_reason:
+            raise Infra(f"scheduler aborted: {s.abort_reason}")
+        bad = [f"{t.name} raised {type(t.exc).__name__}: {t.exc}" for t in s.threads if t.exc is not None]
+        if bad:
+            return bad
+        serial = serial_outcomes(self.sc)
+        if not any(res == self.results and rows == self.final for res, rows, _ in serial):
+            calls = "; ".join(f"t{u}:{' '.join(call_text(c) for c in t)}" for u, t in enumerate(self.sc["threads"]))
+            got = ", ".join(f"t{u}.{i}={r}" for (u, i), r in self.results)
+            stores = sorted({str(rows) for _, rows, _ in serial})
+            bad.append(f"concurrent calls [{calls}] on the in-memory back-end: results {got}, final store {self.final} - "
+                       f"no sequential order of the same calls gives this (the {len(serial)} orders leave {' or '.join(stores)})")
+        return bad
+
+
+def call_text(c):
+    return c[0] + "(" + ",".join(str(x) for x in c[1:]) + ")"
+
+
+OLD, FRESH = [7, 100], [7, 200]
+DBRACE_ROWS = [[1, 100], OLD, [9, 100]]
+DBRACE_SCENARIOS = [
+    {"rows": DBRACE_ROWS, "threads": [[["remove", OLD]], [["update", 1, FRESH]]]},          # maintenance removes the old version
+    {"rows": DBRACE_ROWS, "threads": [[["remove", OLD]], [["insert", [5, 100]]]]},
+    {"rows": DBRACE_ROWS, "threads": [[["remove", OLD]], [["remove_by_id", 1]]]},
+    {"rows": DBRACE_ROWS, "threads": [[["remove", OLD]], [["remove", OLD]]]},
+    {"rows": DBRACE_ROWS + [OLD], "threads": [[["remove", OLD]], [["remove_by_id", 1]]]},   # an equal object under another id
+    {"rows": DBRACE_ROWS, "threads": [[["insert", [5, 100]]], [["insert", [6, 100]]]]},
+    {"rows": DBRACE_ROWS, "threads": [[["update", 1, FRESH]], [["search", 7]]]},
+    {"rows": DBRACE_ROWS, "threads": [[["remove", OLD], ["insert", [7, 300]]], [["search", 7]]]},
+    {"rows": DBRACE_ROWS, "threads": [[["remove_by_id", 1]], [["update", 1, FRESH]]]},
+    {"rows": DBRACE_ROWS, "threads": [[["remove", OLD]], [["update", 1, FRESH]], [["search", 7]]]},
+]
+
+
+def gen_dbrace(rng):
+    pool = [[1, 100], [7, 100], [7, 200], [9, 100], [5, 100]]
+    rows = [list(rng.choice(pool)) for _ in range(rng.randrange(1, 5))]
+    ids = list(range(len(rows) + 2))
+
+    def call():
+        x = rng.random()
+        if x < 0.25:
+            return ["remove", list(rng.choice(rows + pool[:2]))]
+        if x < 0.50:
+            return ["update", rng.randrange(len(rows)), list(rng.choice(pool))]     # an id that has been issued (IF.LDM.3 checks)
+        if x < 0.65:
+            return ["insert", list(rng.choice(pool))]
+        if x < 0.80:
+            return ["remove_by_id", rng.choice(ids)]
+        if x < 0.95:
+            return ["search", rng.choice([1, 7, 9])]
+        return ["all"]
+    nthreads = rng.choice([2, 2, 2, 3])
+    threads = [[call() for _ in range(1 if nthreads == 3 else rng.choice([1, 1, 2]))] for _ in range(nthreads)]
+    if not any(c[0] in ("remove", "update", "remove_by_id", "insert") for t in threads for c in t):
+        threads[0][0] = ["remove", list(rows[0])]
+    return {"rows": rows, "threads": threads}
+
+
+def dbrace_explore(ctx, scenarios, cap1, cap2, n_pct, tag):
+    """per scenario: ALL schedules with at most one pre-emption (a whole call of the other thread between any two steps of a
+    call - in particular before every lock acquisition), a sample with two, and some PCT runs; judged against the set of
+    sequential outcomes"""
+    import dsched
+    for k, sc in enumerate(scenarios):
+        def handle(run, sc=sc, k=k):
+            ctx.evals()
+            ctx.cover("dbrace_runs")
+            ctx.cover("dbrace_preemptions_%d" % min(dsched.preemptions(run.steps), 3))
+            ctx.nontrivial(("dbrace", tuple(c[0] for t in sc["threads"] for c in t), str(run.results), str(run.final)))
+            for what in run.judge():
+                ctx.violation(f"{tag}:{k}: {what}", {"kind": "dbrace", "scenario": sc, "schedule": run.choices})
+            return run
+
+        def once(prefix):
+            return handle(DbRace(sc, dsched.Replay(prefix))).steps
+        _, exhausted = dsched.enumerate_schedules(once, 1, cap1, None)
+        if exhausted:
+            ctx.cover("dbrace_exhausted_bound_1")
+        if cap2:
+            dsched.enumerate_schedules(once, 2, cap2, ctx.rng)
+        for i in range(n_pct):
+            handle(DbRace(sc, dsched.PCT(ctx.rng, depth=2 + i % 2, est_steps=120)))
+        if len(ctx.violations) >= 3:
+            return
+
+
+
 def kf1_witness(ctx):
     """TinyDB and bytes: run the witness every time (variant detection: repaired code passes silently)"""
     obj = {"header": {"stationId": 1}, "cam": {"generationDeltaTime": 1, "exteriorLights": (b"\x80", 8)}}
@@ -728,6 +977,17 @@ def run(ctx):
         mos = model_lines(ctx, [c for _, c in part], variants)
         for (tag, c), (md, mt) in zip(part, mos):
             run_case(ctx, c, tag, md, mt)
+    for n, c in corpus("C13"):
+        if c.get("kind") == "dbrace":
+            import dsched
+            r = DbRace(c["scenario"], dsched.Replay(c.get("schedule", [])))
+            ctx.evals()
+            ctx.cover("corpus_dbrace")
+            for what in r.judge():
+                ctx.violation(f"corpus:{n}: {what}", {"kind": "dbrace", "scenario": c["scenario"], "schedule": c.get("schedule", [])})
+    dbrace_explore(ctx, DBRACE_SCENARIOS, ctx.scale(300, 2000), ctx.scale(12, 600), ctx.scale(3, 60), "threads")
+    if ctx.thorough:
+        dbrace_explore(ctx, [gen_dbrace(ctx.rng) for _ in range(150)], 400, 60, 6, "threads:random")
     if cases:
         c = cases[-1][1]
         ops = case_ops(c)
@@ -736,6 +996,11 @@ def run(ctx):
 
 
 def search(ctx):
+    dbrace_explore(ctx, DBRACE_SCENARIOS, ctx.scale(600, 6000), ctx.scale(200, 3000), ctx.scale(20, 200), "search:threads")
+    if len(ctx.violations) < 3:
+        dbrace_explore(ctx, [gen_dbrace(ctx.rng) for _ in range(ctx.scale(40, 600))], 300, 40, 4, "search:threads:random")
+    if len(ctx.violations) >= 3:
+        return
     pool = message_pool(ctx, 24)
     for i, c in enumerate(boundary_cases()):
         run_case(ctx, c, f"search:boundary:{i}")
@@ -750,6 +1015,15 @@ def replay(ctx, obj):
     if case.get("kind") == "tinydb-bytes":
         kf1_witness(ctx)
         return bool(ctx.known_seen or ctx.violations)
+    if case.get("kind") == "dbrace":
+        import dsched
+        r = DbRace(case["scenario"], dsched.Replay(case.get("schedule", [])))
+        bad = r.judge()
+        print(f"  threads: {[[call_text(c) for c in t] for t in case['scenario']['threads']]} on rows {case['scenario']['rows']}")
+        print(f"  schedule of {len(case.get('schedule', []))} choices -> results {r.results}, final store {r.final}")
+        for what in bad:
+            print("  VIOLATED:", what[:400])
+        return bool(bad)
     if case.get("kind") != "query":
         raise Infra(f"unknown replay kind {case.get('kind')}")
     n0 = len(ctx.violations) + sum(v["count"] for v in ctx.known_seen.values())
